@@ -1,5 +1,6 @@
 SPECIFICATION Spec
 CONSTANT MaxDev = 2
+CONSTANT Diag = TRUE
 CONSTANT MaxLen = 3
 INVARIANT TypeOK
 INVARIANT CacheCoherent
